@@ -1905,6 +1905,8 @@ class Rule(metaclass=LogicalType):
                         f"prefixItems required prefix: [{i}] not provided", item=i
                     )
                 )
+                # errors are being collected: there is no item to parse at this position
+                continue
 
             with context.enter(route=i) as arg_context:
                 try:
